@@ -25,7 +25,6 @@
 //	                        baseline; nothing inside carries a sentinel marker)
 //	calls <spy>             -> calls <word>:<hexpath>[:<hexpath>],…    calls recorded since the last `calls`
 //	q <fs> <word> <arg>…    the interface call, answer projected: refused (err / f) | done | panic | hang
-//	qview <id> <fs> <hexpath>   Filespace(path), projected: done (and <id> bound) | refused
 //
 // Sub-commands:
 //
@@ -33,7 +32,7 @@
 //	views gen <n> [<shard> <nshards>]       random histories through random view stacks (see gen.go)
 //	views oracle <n> [<shard> <nshards>]    the same histories (other seed stream, all bottoms) run in-process, the
 //	                                        property evaluated on the implementation alone
-//	views sweep <maxsegs> [<shard> <nshards> [<heavysegs>]]   exhaustive confinement sweep (see sweep.go)
+//	views sweep <maxsegs> [<shard> <nshards> [<heavysegs> [<extrasegs>]]]   exhaustive confinement sweep (see sweep.go)
 //	views stacks                            names of the fixed view stacks of the sweep
 //	views scan                              op lines on stdin, run in-process, verdict as `oracle` (replays)
 package main
@@ -112,8 +111,12 @@ func leaks(res string) bool {
 
 type idCipher struct{}
 
-func (idCipher) DecryptReader(key []byte, r filesystem.Reader) (filesystem.Reader, error) { return r, nil }
-func (idCipher) EncryptWriter(key []byte, w filesystem.Writer) (filesystem.Writer, error) { return w, nil }
+func (idCipher) DecryptReader(key []byte, r filesystem.Reader) (filesystem.Reader, error) {
+	return r, nil
+}
+func (idCipher) EncryptWriter(key []byte, w filesystem.Writer) (filesystem.Writer, error) {
+	return w, nil
+}
 func (idCipher) Encrypt(key []byte, data []byte) ([]byte, error) {
 	return append([]byte{}, data...), nil
 }
@@ -157,22 +160,23 @@ func (s *spyFS) ReadDir(p string) ([]os.FileInfo, error) {
 	s.rec("readdir", p)
 	return nil, errSpy
 }
-func (s *spyFS) IsExist(p string) bool                     { s.rec("isexist", p); return false }
-func (s *spyFS) IsFile(p string) bool                      { s.rec("isfile", p); return false }
-func (s *spyFS) IsDir(p string) bool                       { s.rec("isdir", p); return false }
-func (s *spyFS) MkdirAll(p string, m os.FileMode) error    { s.rec("mkdir", p); return errSpy }
-func (s *spyFS) ReadFile(p string) ([]byte, error)         { s.rec("readfile", p); return nil, errSpy }
+func (s *spyFS) IsExist(p string) bool                  { s.rec("isexist", p); return false }
+func (s *spyFS) IsFile(p string) bool                   { s.rec("isfile", p); return false }
+func (s *spyFS) IsDir(p string) bool                    { s.rec("isdir", p); return false }
+func (s *spyFS) MkdirAll(p string, m os.FileMode) error { s.rec("mkdir", p); return errSpy }
+func (s *spyFS) ReadFile(p string) ([]byte, error)      { s.rec("readfile", p); return nil, errSpy }
 func (s *spyFS) WriteFile(p string, d []byte, m os.FileMode) error {
 	s.rec("write", p)
 	return errSpy
 }
+
 // Filespace is not recorded: the model's `Filespace` of a bottom has no state to record into
 func (s *spyFS) Filespace(p string) (filesystem.Filespace, error) { return nil, errSpy }
-func (s *spyFS) Reader(p string) (filesystem.Reader, error) { s.rec("reader", p); return nil, errSpy }
-func (s *spyFS) Writer(p string) (filesystem.Writer, error) { s.rec("writer", p); return nil, errSpy }
-func (s *spyFS) Remove(p string) error                      { s.rec("remove", p); return errSpy }
-func (s *spyFS) RemoveAll(p string) error                   { s.rec("removeall", p); return errSpy }
-func (s *spyFS) Lstat(p string) (os.FileInfo, error)        { s.rec("lstat", p); return nil, errSpy }
+func (s *spyFS) Reader(p string) (filesystem.Reader, error)       { s.rec("reader", p); return nil, errSpy }
+func (s *spyFS) Writer(p string) (filesystem.Writer, error)       { s.rec("writer", p); return nil, errSpy }
+func (s *spyFS) Remove(p string) error                            { s.rec("remove", p); return errSpy }
+func (s *spyFS) RemoveAll(p string) error                         { s.rec("removeall", p); return errSpy }
+func (s *spyFS) Lstat(p string) (os.FileInfo, error)              { s.rec("lstat", p); return nil, errSpy }
 
 // ---------------------------------------------------------------------------------------------
 // kinds
@@ -333,34 +337,6 @@ func init() {
 		}
 		return project(res)
 	})
-	fsdrv.RegisterCommand("qview", func(s *fsdrv.Session, args []string) string {
-		if len(args) != 3 {
-			return "bad-op"
-		}
-		id, e1 := strconv.Atoi(args[0])
-		_, e2 := strconv.Atoi(args[1])
-		p, e3 := hx.Dec(args[2])
-		if e1 != nil || e2 != nil || e3 != nil {
-			return "bad-op"
-		}
-		fs, ok := s.FSArg(args[1])
-		if !ok {
-			return "nofs"
-		}
-		var child FS
-		res := s.Exec(func() string {
-			c, err := fs.Filespace(string(p))
-			if err != nil || c == nil {
-				return "err"
-			}
-			child = c
-			return "ok"
-		})
-		if res == "ok" {
-			s.Bind(id, child)
-		}
-		return project(res)
-	})
 	fsdrv.MarkMutating("q")
 }
 
@@ -449,13 +425,18 @@ func main() {
 			return
 		}
 		s, ns := shardArgs(os.Args[3:])
-		heavy := n
+		heavy, extra := n, n
 		if len(os.Args) >= 6 {
 			if h, err := strconv.Atoi(os.Args[5]); err == nil && h >= 0 {
 				heavy = h
 			}
 		}
-		sweepMain(w, n, s, ns, heavy)
+		if len(os.Args) >= 7 {
+			if h, err := strconv.Atoi(os.Args[6]); err == nil && h >= 0 {
+				extra = h
+			}
+		}
+		sweepMain(w, n, s, ns, heavy, extra)
 	case "stacks":
 		for _, st := range fixedStacks() {
 			fmt.Fprintf(w, "%s depth=%d layers=%d\n", st.name, st.depth, st.layers)
